@@ -905,4 +905,271 @@ theorem set_d_shapes (r0 r1 : Nat) (h0 : r0 < B) (h1 : 1 ≤ r1) (h1' : r1 < B) 
     · simp only [Bool.false_eq_true, if_false]; rw [if_neg (by omega)]; simp
     · simp only [if_true]; rw [if_pos (by omega)]; simp
 
+/-! ### mpz_cmp_d / mpz_cmpabs_d -/
+
+theorem sgn_mul_pos {c : Int} (hc : 0 < c) (x : Int) : sgn (c * x) = sgn x := by
+  rcases lt_trichotomy x 0 with h | h | h
+  · rw [sgn_neg h, sgn_neg (by nlinarith)]
+  · subst h; simp
+  · rw [sgn_pos h, sgn_pos (by nlinarith)]
+
+theorem val_take_top2 : ∀ (l : List Nat), 2 ≤ l.length →
+    val l = val (l.take (l.length - 2)) + B ^ (l.length - 2) * (l.getD (l.length - 2) 0 + B * l.getD (l.length - 1) 0)
+  | [], h => by simp at h
+  | [_], h => by simp at h
+  | [x, y], _ => by simp
+  | x :: y :: z :: zs, _ => by
+    have ih := val_take_top2 (y :: z :: zs) (by simp)
+    simp only [List.length_cons] at ih ⊢
+    have i1 : zs.length + 1 + 1 + 1 - 2 = (zs.length + 1 + 1 - 2) + 1 := by omega
+    have i2 : zs.length + 1 + 1 + 1 - 1 = (zs.length + 1 + 1 - 1) + 1 := by omega
+    rw [i1, i2, List.take_succ_cons, val_cons x (y :: z :: zs), val_cons x (List.take _ _), List.getD_cons_succ,
+      List.getD_cons_succ, pow_succ, ih]
+    ring
+
+theorem val_eq_zero_iff : ∀ (l : List Nat), val l = 0 ↔ ∀ x ∈ l, x = 0
+  | [] => by simp
+  | x :: xs => by
+    rw [val_cons]
+    have ih := val_eq_zero_iff xs
+    have hB := B_pos
+    constructor
+    · intro h
+      have h1 : x = 0 := by omega
+      have h2 : val xs = 0 := by
+        rcases Nat.eq_zero_or_pos (val xs) with z | p
+        · exact z
+        · have : 0 < B * val xs := Nat.mul_pos hB p; omega
+      intro y hy
+      rcases List.mem_cons.mp hy with e | m
+      · rw [e, h1]
+      · exact ih.mp h2 y m
+    · intro h
+      have h1 : x = 0 := h x (by simp)
+      have h2 : val xs = 0 := ih.mpr (fun y hy => h y (List.mem_cons_of_mem _ hy))
+      rw [h1, h2]; simp
+
+theorem any_ne_zero_iff (l : List Nat) : (l.any (· != 0)) = true ↔ val l ≠ 0 := by
+  rw [Ne, val_eq_zero_iff, List.any_eq_true]
+  constructor
+  · rintro ⟨x, hx, hne⟩ h
+    have := h x hx; subst this; simp at hne
+  · intro h
+    by_contra c
+    apply h
+    intro x hx
+    by_contra ne
+    exact c ⟨x, hx, by simpa using ne⟩
+
+/-- cmp_d.c:102-109: lexicographic comparison of the `ex` limbs of z against the two extracted limbs
+    placed at the top; stated on the common scale B·z versus (d1·B + d0)·B^(ex-1). -/
+theorem cmpLimbsD_spec (zp : List Nat) (hL : Limbs zp) (hn : 1 ≤ zp.length) (r0 r1 : Nat) (ret : Int)
+    (h0 : r0 < B) :
+    cmpLimbsD zp r0 r1 ret =
+      ret * sgn ((val zp : Int) * B - ((r1 : Int) * B + r0) * ((B ^ (zp.length - 1) : Nat) : Int)) := by
+  have hne : zp ≠ [] := by intro e; rw [e] at hn; simp at hn
+  obtain ⟨lo, e, b⟩ := val_top_split zp hL hne
+  have hBp : (0 : Int) < B := by exact_mod_cast B_pos
+  have hPp : (0 : Int) < ((B ^ (zp.length - 1) : Nat) : Int) := by exact_mod_cast Bpow_pos _
+  unfold cmpLimbsD
+  dsimp only
+  by_cases c : zp.getD (zp.length - 1) 0 ≠ r1
+  · rw [if_pos c]
+    generalize zp.getD (zp.length - 1) 0 = top at *
+    generalize B ^ (zp.length - 1) = P at *
+    rw [e]
+    push_cast
+    have hlo : (lo : Int) < P := by exact_mod_cast b
+    have hr0 : (r0 : Int) < B := by exact_mod_cast h0
+    by_cases g : top ≥ r1
+    · rw [if_pos g]
+      have g' : (top : Int) ≥ r1 + 1 := by omega
+      have k : (P : Int) * B * (top - r1) ≥ P * B * 1 := mul_le_mul_of_nonneg_left (by linarith) (by positivity)
+      have a1 : (0 : Int) ≤ lo * B := by positivity
+      have a2 : (r0 : Int) * P < B * P := mul_lt_mul_of_pos_right hr0 hPp
+      have pos : 0 < ((lo : Int) + P * top) * B - (r1 * B + r0) * P := by nlinarith
+      rw [sgn_pos pos]
+      ring
+    · rw [if_neg g]
+      have g' : (top : Int) + 1 ≤ r1 := by omega
+      have k : (P : Int) * B * (r1 - top) ≥ P * B * 1 := mul_le_mul_of_nonneg_left (by linarith) (by positivity)
+      have a1 : (lo : Int) * B < P * B := mul_lt_mul_of_pos_right hlo hBp
+      have a2 : (0 : Int) ≤ r0 * P := by positivity
+      have neg : ((lo : Int) + P * top) * B - (r1 * B + r0) * P < 0 := by nlinarith
+      rw [sgn_neg neg]
+      ring
+  · rw [if_neg c]
+    have ceq : zp.getD (zp.length - 1) 0 = r1 := by simpa using c
+    by_cases n1 : zp.length = 1
+    · rw [if_pos n1]
+      rw [n1] at e b ceq ⊢
+      simp only [Nat.sub_self, pow_zero, Nat.lt_one_iff] at b
+      subst b
+      simp only [Nat.sub_self, pow_zero, Nat.zero_add, Nat.one_mul] at e
+      rw [e, ceq]
+      simp only [Nat.sub_self, pow_zero, Nat.cast_one, mul_one]
+      have : (r1 : Int) * B - (r1 * B + r0) = -(r0 : Int) := by ring
+      rw [this]
+      by_cases z : r0 ≠ 0
+      · rw [if_pos z, sgn_neg (by omega)]; ring
+      · rw [if_neg z]
+        have : r0 = 0 := by simpa using z
+        subst this; simp [sgn_zero]
+    · rw [if_neg n1]
+      have h2 : 2 ≤ zp.length := by omega
+      have e2 := val_take_top2 zp h2
+      have blo : val (zp.take (zp.length - 2)) < B ^ (zp.length - 2) := by
+        have := val_lt _ (Limbs_take hL (zp.length - 2))
+        rwa [List.length_take, Nat.min_eq_left (by omega)] at this
+      have hP : B ^ (zp.length - 1) = B ^ (zp.length - 2) * B := by
+        rw [← pow_succ]; congr 1; omega
+      have hany := any_ne_zero_iff (zp.take (zp.length - 2))
+      rw [ceq] at e2
+      rw [e2, hP]
+      generalize zp.getD (zp.length - 2) 0 = z2 at *
+      generalize val (zp.take (zp.length - 2)) = lo' at *
+      generalize B ^ (zp.length - 2) = Q at *
+      have hQp : (0 : Int) < Q := by
+        have : 0 < Q := by omega
+        exact_mod_cast this
+      have hlo : (lo' : Int) < Q := by exact_mod_cast blo
+      push_cast
+      have T : ((lo' : Int) + Q * (z2 + B * r1)) * B - (r1 * B + r0) * (Q * B) = lo' * B + Q * B * (z2 - r0) := by ring
+      rw [T]
+      by_cases c2 : z2 ≠ r0
+      · rw [if_pos c2]
+        by_cases g : z2 ≥ r0
+        · rw [if_pos g]
+          have g' : (z2 : Int) ≥ r0 + 1 := by omega
+          have k : (Q : Int) * B * (z2 - r0) ≥ Q * B * 1 := mul_le_mul_of_nonneg_left (by linarith) (by positivity)
+          have a1 : (0 : Int) ≤ lo' * B := by positivity
+          have pos : 0 < (lo' : Int) * B + Q * B * (z2 - r0) := by nlinarith [mul_pos hQp hBp]
+          rw [sgn_pos pos]
+          ring
+        · rw [if_neg g]
+          have g' : (z2 : Int) + 1 ≤ r0 := by omega
+          have k : (Q : Int) * B * (r0 - z2) ≥ Q * B * 1 := mul_le_mul_of_nonneg_left (by linarith) (by positivity)
+          have a1 : (lo' : Int) * B < Q * B := mul_lt_mul_of_pos_right hlo hBp
+          have neg : (lo' : Int) * B + Q * B * (z2 - r0) < 0 := by nlinarith [mul_pos hQp hBp]
+          rw [sgn_neg neg]
+          ring
+      · rw [if_neg c2]
+        have : z2 = r0 := by simpa using c2
+        subst this
+        simp only [sub_self, mul_zero, add_zero]
+        by_cases a : (zp.take (zp.length - 2)).any (· != 0) = true
+        · rw [if_pos a]
+          have : lo' ≠ 0 := hany.mp a
+          have : (0 : Int) < lo' := by omega
+          rw [sgn_pos (by nlinarith)]; ring
+        · rw [if_neg a]
+          have : lo' = 0 := by
+            by_contra ne; exact a (hany.mpr ne)
+          subst this; simp [sgn_zero]
+
+theorem dblNum_pos {b : Nat} (hz : isZero b = false) : 0 < dblNum b := by
+  unfold isZero at hz; simp at hz
+  unfold dblNum
+  by_cases e : expOf b = 0
+  · rw [if_pos e]; unfold expOf at e; unfold manOf; omega
+  · rw [if_neg e]; exact Nat.mul_pos (by omega) (two_pow_pos _)
+
+theorem lt_one_iff (d : Nat) (hd : d < 2 ^ 63) : d < oneBits ↔ expOf d < 1023 := by
+  unfold oneBits expOf; omega
+
+theorem dblNum_lt_one {b : Nat} (h : expOf b < 1023) : dblNum b < 2 ^ 1074 := by
+  have hm : manOf b < 2 ^ 52 := by unfold manOf; omega
+  unfold dblNum
+  by_cases e : expOf b = 0
+  · rw [if_pos e]
+    calc manOf b < 2 ^ 52 := hm
+      _ ≤ 2 ^ 1074 := Nat.pow_le_pow_right (by decide) (by decide)
+  · rw [if_neg e]
+    have h1 : 2 ^ 52 + manOf b < 2 ^ 53 := by omega
+    have h2 : 2 ^ (expOf b - 1) ≤ 2 ^ 1021 := Nat.pow_le_pow_right (by decide) (by omega)
+    calc (2 ^ 52 + manOf b) * 2 ^ (expOf b - 1) < 2 ^ 53 * 2 ^ (expOf b - 1) := Nat.mul_lt_mul_of_pos_right h1 (two_pow_pos _)
+      _ ≤ 2 ^ 53 * 2 ^ 1021 := Nat.mul_le_mul_left _ h2
+      _ = 2 ^ 1074 := by rw [← pow_add]
+
+/-- steps 3-5 of mpz_cmp_d / mpz_cmpabs_d: for a non-zero z and a finite non-zero |d| the result is
+    `ret` times the sign of |z| - |d| (on the scale 2^1074). -/
+theorem cmpTailD_spec (zp : List Nat) (hL : Limbs zp) (ht : TopNZ zp) (hne : zp ≠ []) (zsize : Int)
+    (hzs : zsize = zp.length) (d : Nat) (hd : d < 2 ^ 63) (hz : isZero d = false) (hf : expOf d ≠ 2047) (ret : Int) :
+    cmpTailD zp zsize d ret = ret * sgn ((val zp : Int) * 2 ^ 1074 - dblNum d) := by
+  have hn : 1 ≤ zp.length := by cases zp with | nil => exact absurd rfl hne | cons _ _ => simp
+  have vlo := val_ge_of_top zp hne ht
+  have vhi := val_lt zp hL
+  have hB : B = 2 ^ 64 := rfl
+  unfold cmpTailD
+  by_cases lt : d < oneBits
+  · rw [if_pos lt]
+    have := dblNum_lt_one ((lt_one_iff d hd).mp lt)
+    have v1 : 1 ≤ val zp := le_trans (Bpow_pos _) vlo
+    have : dblNum d < val zp * 2 ^ 1074 := by
+      calc dblNum d < 1 * 2 ^ 1074 := by omega
+        _ ≤ val zp * 2 ^ 1074 := Nat.mul_le_mul_right _ v1
+    have pos : (0 : Int) < (val zp : Int) * 2 ^ 1074 - dblNum d := by
+      have h' : ((dblNum d : Nat) : Int) < ((val zp * 2 ^ 1074 : Nat) : Int) := by exact_mod_cast this
+      push_cast at h'; exact sub_pos.mpr h'
+    rw [sgn_pos pos]
+    ring
+  · rw [if_neg lt]
+    have he1023 : 1023 ≤ expOf d := by
+      have := (lt_one_iff d hd).not.mp lt; omega
+    obtain ⟨r0, r1, ex, he, h0, h1, h1', x1, x2, hrel, hex1, _⟩ := extract_double_eq d hz hf
+    have ex1 := hex1 he1023
+    rw [he]
+    dsimp only
+    -- dblNum = (r1·B + r0)·B^(ex-1)·2^1010
+    have hdn : dblNum d = (r1 * B + r0) * B ^ (ex.toNat - 1) * 2 ^ 1010 := by
+      have : (64 * ex + 1074).toNat = 64 * (ex.toNat - 1) + 1010 + 128 := by omega
+      rw [this, pow_add, pow_add, ← Nat.mul_assoc, ← Nat.mul_assoc, ← Bpow_eq] at hrel
+      exact (Nat.eq_of_mul_eq_mul_right (two_pow_pos 128) hrel).symm
+    have h1074 : (2 : Nat) ^ 1074 = B * 2 ^ 1010 := by rw [hB, ← pow_add]
+    have p1010 : (0 : Int) < ((2 ^ 1010 : Nat) : Int) := by exact_mod_cast two_pow_pos 1010
+    have key : (val zp : Int) * 2 ^ 1074 - dblNum d =
+        ((2 ^ 1010 : Nat) : Int) * ((val zp : Int) * B - ((r1 : Int) * B + r0) * ((B ^ (ex.toNat - 1) : Nat) : Int)) := by
+      have : ((2 : Int) ^ 1074) = (((2 : Nat) ^ 1074 : Nat) : Int) := by push_cast; rfl
+      rw [this, h1074, hdn]; push_cast; ring
+    rw [key, sgn_mul_pos p1010]
+    by_cases ne : zsize ≠ ex
+    · rw [if_pos ne]
+      generalize hP : B ^ (ex.toNat - 1) = P at *
+      have hPp : 0 < P := by rw [← hP]; exact Bpow_pos _
+      by_cases ge : zsize ≥ ex
+      · rw [if_pos ge]
+        -- more limbs than the double: v ≥ B^(n-1) ≥ B^ex = P·B
+        have hle : P * B ≤ B ^ (zp.length - 1) := by
+          rw [← hP, ← pow_succ]; exact pow_le_pow_B (by omega)
+        have hv : P * B ≤ val zp := le_trans hle vlo
+        have hlt : r1 * B + r0 < B * B := by nlinarith
+        have : (r1 * B + r0) * P < val zp * B := by
+          calc (r1 * B + r0) * P < B * B * P := Nat.mul_lt_mul_of_pos_right hlt hPp
+            _ = P * B * B := by ring
+            _ ≤ val zp * B := Nat.mul_le_mul_right _ hv
+        have pos : (0 : Int) < (val zp : Int) * B - ((r1 : Int) * B + r0) * (P : Int) := by
+          have h' : ((((r1 * B + r0) * P : Nat)) : Int) < ((val zp * B : Nat) : Int) := by exact_mod_cast this
+          push_cast at h'; linarith
+        rw [sgn_pos pos]
+        ring
+      · rw [if_neg ge]
+        have hle : B ^ zp.length ≤ P := by rw [← hP]; exact pow_le_pow_B (by omega)
+        have hv : val zp < P := lt_of_lt_of_le vhi hle
+        have : val zp * B < (r1 * B + r0) * P := by
+          calc val zp * B < P * B := Nat.mul_lt_mul_of_pos_right hv B_pos
+            _ = 1 * B * P := by ring
+            _ ≤ (r1 * B + r0) * P := Nat.mul_le_mul_right _ (by nlinarith)
+        have neg : (val zp : Int) * B - ((r1 : Int) * B + r0) * (P : Int) < 0 := by
+          have h' : ((val zp * B : Nat) : Int) < ((((r1 * B + r0) * P : Nat)) : Int) := by exact_mod_cast this
+          push_cast at h'; linarith
+        rw [sgn_neg neg]
+        ring
+    · rw [if_neg ne]
+      have : ex.toNat = zp.length := by omega
+      rw [this]
+      exact cmpLimbsD_spec zp hL hn r0 r1 ret h0
+
+/-- exact value of a finite double scaled by 2^1074, with its sign -/
+def dblInt (b : Nat) : Int := if sigOf b = 1 then -(dblNum b : Int) else (dblNum b : Int)
+
 end Mpir.Conv
